@@ -272,6 +272,19 @@ def dispatchLd (ld : Option LdSession) (op : String) (args : List Sexp) : Option
       match args.mapM Sexp.bytes? with
       | none => (ld, "bad-args")
       | some rs => (some { s with w := { s.w with net := { s.w.net with pending := rs.map some } } }, "ok")
+  | "ld.gettaglist", some s =>
+      -- `get_tag_list(None)` / `get_tag_list('*')` on a session made by `ld.open`: result, frames, driver state
+      match args, s.ldrv with
+      | [b], some l =>
+          match bool? b with
+          | none => (ld, "bad-args")
+          | some allPrograms =>
+              let s0 := clearSent s
+              let (w, l', r) := Opn.getTagList hookAll s0.w l allPrograms
+              (some { s0 with w := w, cfg := l'.cfg, ldrv := some l' },
+               "ok (result " ++ (match r with | .ok _ => "(ok T)" | .error e => "(raise " ++ e.render ++ ")") ++
+                 ") (frames " ++ " ".intercalate (w.net.sent.map fun f => (Sexp.ofBytes f).render) ++ ") " ++ renderDrv w.drv ++ " " ++ renderLDrv l')
+      | _, _ => (ld, "bad-args")
   | "ld.drv", some s => (ld, "ok " ++ renderDrv s.w.drv)
   | "ld.tags", some s => (ld, ldTags s)
   | "ld.read", some s => let (s', out) := ldRead s args; (some s', out)
